@@ -92,11 +92,11 @@ type chainFx struct {
 	apps   *stubApps
 	saved  int64
 
-	probe   relaySet // probe claims (huge total, junk branch)
-	witness relaySet // witness claims (real tree through the handler)
+	probe            relaySet // probe claims (huge total, junk branch)
+	witness          relaySet // witness claims (real tree through the handler)
 	appPriv, cliPriv ed25519.PrivateKey
-	node    sdk.Address
-	handler sdk.Handler
+	node             sdk.Address
+	handler          sdk.Handler
 }
 
 func newChainFx(b, w, hmax int64, salt uint64) *chainFx {
@@ -352,8 +352,10 @@ func (f *chainFx) play(sessions []int64, scan int64) map[int64]*c31SessionObs {
 				n++
 				p := f.probeProof(s, documentedSelection(c31ProbeTotal, f.hash[x], cl.SessionHeader))
 				r := f.classifyProof(ctx, p)
-				if r2 := f.classifyProof(ctx, p); r2 != r {
-					o.unstable = append(o.unstable, fmt.Sprintf("ValidateProof at %d cand %d: %s then %s", h, x, r, r2))
+				if r == "match" || x > h-3 { // repeatability of the keeper's answer (all matches, and the most recent blocks)
+					if r2 := f.classifyProof(ctx, p); r2 != r {
+						o.unstable = append(o.unstable, fmt.Sprintf("ValidateProof at %d cand %d: %s then %s", h, x, r, r2))
+					}
 				}
 				switch r {
 				case "match":
@@ -398,30 +400,14 @@ func sortedKeys(m map[int64][]int64) []int64 {
 }
 
 func TestC31(t *testing.T) {
-	rule := "part 1 (exhaustive grid): mode in {pre-upgrade, post-upgrade+features} x blocks-per-session 1..12 x claim-submission-window 2..6 (values the params validation admits) " +
-		"x session start k*b+1 for k in {1,2,4} x every claim height from session start to start+(w+2)*b. Per configuration a real pocketcore keeper on a real rootmulti store " +
+	rule := "part 1 (exhaustive grid): mode in {pre-upgrade, post-upgrade+features} x blocks-per-session 1..12 x claim-submission-window 2..6 (values the params validation admits; thorough tier: 1..16 x 2..8) " +
+		"x session start k*b+1 for k in {1,2,4} (thorough: {1,2,3,4,6}) x every claim height from session start to start+(w+2)*b. Per configuration a real pocketcore keeper on a real rootmulti store " +
 		"(one version per height) and a real tendermint block store filled block by block; observed black-box: ValidateClaim acceptance per height; the entropy block = the unique " +
 		"block whose hash, fed to the documented selection, gets a probe proof past ValidateProof's index check (candidates: every block <= current). Oracle: claim accepted in " +
 		"block h => h <= entropy block height (hash of block e is public from height e+1 on: block e+1's header carries it). non-trivial = claim height within 1 of the last " +
 		"accepted height or of the first height at which the entropy hash is public. part 2 (rapid): PseudorandomSelection(max, seed) for max in [1,2^62] (biased to small / " +
 		"powers of two) and random seeds: 0 <= index < max, equals the documented big-endian-8-byte mod formula, repeatable"
-	harness.Enumerate(t, "C31", rule, func(each func(name string, f func(c *harness.Case))) {
-		modes := []c31Mode{{"pre-upgrade", false}, {"post-upgrade", true}}
-		for _, mode := range modes {
-			for b := int64(1); b <= 12; b++ {
-				for w := int64(2); w <= 6; w++ {
-					mode.apply()
-					sessions := []int64{1*b + 1, 2*b + 1, 4*b + 1}
-					scan := (w + 2) * b
-					fx := newChainFx(b, w, sessions[2]+scan, uint64(b*100+w))
-					obs := fx.play(sessions, scan)
-					for _, s := range sessions {
-						c31Judge(t, each, mode, fx, obs[s])
-					}
-				}
-			}
-		}
-	})
+	// part 2 first: it is cheap, and a broken selection function would otherwise crash session generation inside part 1
 	resetGlobals()
 	harness.Check(t, "C31", rule, nil, func(rt *rapid.T, c *harness.Case) {
 		resetGlobals()
@@ -463,6 +449,31 @@ func TestC31(t *testing.T) {
 			c.NonTrivial()
 		}
 	})
+	harness.Enumerate(t, "C31", rule, func(each func(name string, f func(c *harness.Case))) {
+		modes := []c31Mode{{"pre-upgrade", false}, {"post-upgrade", true}}
+		maxB, maxW, ks := int64(12), int64(6), []int64{1, 2, 4}
+		if harness.Thorough() { // the thorough tier enumerates a superset of the quick grid
+			maxB, maxW, ks = 16, 8, []int64{1, 2, 3, 4, 6}
+		}
+		for _, mode := range modes {
+			for b := int64(1); b <= maxB; b++ {
+				for w := int64(2); w <= maxW; w++ {
+					mode.apply()
+					var sessions []int64
+					for _, k := range ks {
+						sessions = append(sessions, k*b+1)
+					}
+					scan := (w + 2) * b
+					fx := newChainFx(b, w, sessions[len(sessions)-1]+scan, uint64(b*100+w))
+					obs := fx.play(sessions, scan)
+					for _, s := range sessions {
+						c31Judge(t, each, mode, fx, obs[s])
+					}
+				}
+			}
+		}
+	})
+	resetGlobals()
 }
 
 func c31Judge(t *testing.T, each func(string, func(*harness.Case)), mode c31Mode, fx *chainFx, o *c31SessionObs) {
